@@ -220,3 +220,83 @@ def wmi_of(spec):
     if spec.get('whitening') is not None:
         return np.round(np.linalg.inv(np.array(spec['whitening'])) * 4).__truediv__(4).tolist()
     return [[1. if i == j else 0. for j in range(nc)] for i in range(nc)]
+
+
+# gains of a whitening matrix whose inverse is NOT exactly representable / makes the unwhitened product inexact
+INEXACT_GAINS = (0.7, 1.3, 3.0, 0.9, 1.1, 2.5, 0.35, 6.0, 1.7)
+
+
+def fine_band_templates(rng, nt, nsw, nc):
+    """Double precision templates a single precision array cannot hold: on each channel a baseline of 64..127 (either
+    sign) plus a ripple of m * 2^-28, |m| < 2^20 (35 significant bits); some channels exactly zero.  All samples of a
+    channel have the same sign and lie within a factor 2 of each other, so `max - min` is exact (Sterbenz) in double
+    precision and stays exact after any rounding of the samples to single precision."""
+    out = []
+    for _ in range(nt):
+        base = [0 if rng.random() < .2 else rng.pick([-1, 1]) * rng.randrange(64, 127) for _ in range(nc)]
+        if not any(base):
+            base[rng.randrange(nc)] = 100
+        out.append([[0. if b == 0 else float(b) + rng.randrange(-2 ** 20 + 1, 2 ** 20) * 2.0 ** -28 for b in base]
+                    for _ in range(nsw)])
+    return out
+
+
+def one_sided_templates(rng, nt, nsw, nc):
+    """Single precision templates with full 24-bit significands (k / 2^21, k < 2^24) whose channels are zero, or
+    one-sided with an exact zero sample (peak-to-peak = the extreme sample), or of one sign within [4, 8): `max - min`
+    is exact in single precision on these columns and on any monotone rounding of a positive multiple of them.  Some
+    channels are copies of another one, one or two units in the last place away (almost-ties of the amplitudes)."""
+    out = []
+    for _ in range(nt):
+        cols = []
+        for c in range(nc):
+            kind = rng.pick(['zero', 'pos0', 'pos0', 'neg0', 'band', 'band'])
+            if c and rng.random() < .25 and any(any(x != 0 for x in col) for col in cols):
+                src = rng.pick([col for col in cols if any(x != 0 for x in col)])
+                d = rng.pick([-2, -1, 1, 2])
+                col = [0. if x == 0 else (round(x * 2 ** 21) + d) / 2.0 ** 21 for x in src]
+            elif kind == 'zero':
+                col = [0.] * nsw
+            elif kind == 'band':
+                sg = rng.pick([-1, 1])
+                col = [sg * rng.randrange(2 ** 23 + 4, 2 ** 24 - 4) / 2.0 ** 21 for _ in range(nsw)]
+            else:
+                sg = 1 if kind == 'pos0' else -1
+                col = [sg * rng.randrange(4, 2 ** 24 - 4) / 2.0 ** 21 if rng.random() < .7 else 0. for _ in range(nsw)]
+                col[rng.randrange(nsw)] = 0.
+            cols.append(col)
+        if not any(any(x != 0 for x in col) for col in cols):
+            cols[rng.randrange(nc)] = [4.5] + [0.] * (nsw - 1)
+        out.append([[cols[c][s_] for c in range(nc)] for s_ in range(nsw)])
+    assert all(float(np.float32(x)) == x for t in out for row in t for x in row)
+    return out
+
+
+def inexact_float_spec(rng, spec, store64=None, whiten=None):
+    """Turn a dense spec (made with whiten='none') into one on which the floating-point steps of template access are
+    NOT exact: templates.npy in double precision holding values single precision cannot hold (`fine_band_templates`)
+    and / or a diagonal whitening matrix with non-dyadic gains (inverse stored, computed by the loader, or stored
+    alone).  Returns the spec; `spec['_float_store']` = significand bits of templates.npy (24 / 53)."""
+    nc = spec['n_channels']
+    nt = len(spec['templates'])
+    nsw = len(spec['templates'][0])
+    store64 = (rng.random() < .4) if store64 is None else store64
+    if store64:
+        spec['templates'] = fine_band_templates(rng, nt, nsw, nc)
+        spec['dtypes'] = dict(spec.get('dtypes') or {}, templates='float64')
+    else:
+        spec['templates'] = one_sided_templates(rng, nt, nsw, nc)
+    spec['_float_store'] = 53 if store64 else 24
+    w = whiten if whiten is not None else rng.pick(['inv-stored', 'inv-only', 'computed', 'computed'] + (['none'] if store64 else []))
+    spec['_float_whitening'] = w
+    for k in ('whitening', 'whitening_inv'):
+        spec.pop(k, None)
+    if w != 'none':
+        same = rng.random() < .5
+        g0 = rng.pick(INEXACT_GAINS)
+        gains = [g0 if same else rng.pick(INEXACT_GAINS) for _ in range(nc)]
+        if w in ('inv-stored', 'computed'):
+            spec['whitening'] = [[gains[i] if i == j else 0. for j in range(nc)] for i in range(nc)]
+        if w in ('inv-stored', 'inv-only'):
+            spec['whitening_inv'] = [[1. / gains[i] if i == j else 0. for j in range(nc)] for i in range(nc)]
+    return spec
